@@ -18,8 +18,8 @@ const c06prelude = `(def a 7) (def b 3) (def c 2) (def i 1) (def u [1 0 2]) (def
 
 var c06binops = []string{"=", ":=", "+=", "-=", ",", "and", "or", "==", "!=", "<", "<=", ">", ">=", "+", "-", "*", "/", "mod", "**"}
 var c06levelOps = []string{"=", ",", "and", "or", "==", "<", "+", "-", "*", "/", "**"}
-var c06operandsFull = []string{"a", "b", "1", "2", "-1", "2.5", "1e3", "(f a)", "(tt 1 4)", "v[1]", "v[i]", "v[1:2]", "v[:2]", "v[1:]", "not a", "{ b * 2 }", "v[i+1]", "w[0].e", "h.e", "h.f.g", "(mk 3).e", "v[u[0]]", "v[not a]", "v[u[i]+1]"}
-var c06operandsSmall = []string{"a", "1", "-1", "(tt 1 4)", "v[1]", "w[0].e"}
+var c06operandsFull = []string{"a", "b", "1", "2", "-1", "2.5", "1e3", "(f a)", "(tt 1 4)", "v[1]", "v[i]", "v[1:2]", "v[:2]", "v[1:]", "not a", "{ b * 2 }", "v[i+1]", "w[0].e", "h.e", "h.f.g", "(mk 3).e", "v[u[0]]", "v[not a]", "v[u[i]+1]", "0x1e", "0x1F", "0xe"}
+var c06operandsSmall = []string{"a", "1", "-1", "(tt 1 4)", "v[1]", "w[0].e", "0x1e"}
 var c06operandsTiny = []string{"a", "2", "-1"}
 
 func isWordOp(op string) bool { return op == "and" || op == "or" || op == "mod" }
@@ -170,6 +170,9 @@ var c06control = [][2]string{
 	{`if a > b { c = 5 }; c`, `(begin (cond (> a b) (set c 5) nil) c)`},
 	{`if a < b { 1 } else { if a == 7 { 3 } else { 4 } }`, `(cond (< a b) 1 (cond (== a 7) 3 4))`},
 	{`s = 0; outer: for i := 0; i < 3; i++ { for j := 0; j < 3; j++ { if j == 1 { continue outer }; s++ } }; s`, `(begin (set s 0) (for outer: [(def i 0) (< i 3) (set i (+ i 1))] (for [(def j 0) (< j 3) (set j (+ j 1))] (cond (== j 1) (continue outer:) nil) (set s (+ s 1)))) s)`},
+	{"/* c */ s = 0; outer: for i := 0; i < 3; i++ { for j := 0; j < 3; j++ { if j == 1 { continue outer }; s++ } }; s", `(begin (set s 0) (for outer: [(def i 0) (< i 3) (set i (+ i 1))] (for [(def j 0) (< j 3) (set j (+ j 1))] (cond (== j 1) (continue outer:) nil) (set s (+ s 1)))) s)`},
+	{"/* lead */ outer: for i := 0; i < 2; i++ { for j := 0; j < 2; j++ { if j == 1 { break outer }; c = c + 1 } }; c", `(begin (for outer: [(def i 0) (< i 2) (set i (+ i 1))] (for [(def j 0) (< j 2) (set j (+ j 1))] (cond (== j 1) (break outer:) nil) (set c (+ c 1)))) c)`},
+	{"// lead\nouter: for i := 0; i < 2; i++ { for j := 0; j < 2; j++ { if j == 1 { continue outer }; c = c + 10 } }; c", `(begin (for outer: [(def i 0) (< i 2) (set i (+ i 1))] (for [(def j 0) (< j 2) (set j (+ j 1))] (cond (== j 1) (continue outer:) nil) (set c (+ c 10)))) c)`},
 	{`a = 1; b = a + 1; a + b`, `(begin (set a 1) (set b (+ a 1)) (+ a b))`},
 	{`a = 1
 b = a + 1
@@ -210,9 +213,9 @@ func init() {
 	engine.Register(&engine.Check{
 		ID:    "C06",
 		Level: "exploration",
-		Rule: "every alternating sequence operand (op operand)^n: n=1 over 24 operands x 19 binary operators x 4 spacings; n=2 over 6 operands x 19^2 operators x 16 spacings; n=3 over 3 operands x 11^3 level-representative operators in 2 uniform spacings (thorough: 5 operands, 4 uniform spacings, n=4 over 2 operands x 11^4); " +
+		Rule: "every alternating sequence operand (op operand)^n: n=1 over 27 operands x 19 binary operators x 4 spacings; n=2 over 6 operands x 19^2 operators x 16 spacings; n=3 over 3 operands x 11^3 level-representative operators in 2 uniform spacings (thorough: 5 operands, 4 uniform spacings, n=4 over 2 operands x 11^4); " +
 			"postfix ++/--, statement lists with ; / newline / blank separators; the expansion printed by (infixExpand {...}) must equal an independent tokeniser + precedence-climbing parse (R3), and the block's value and effects must equal those of the prefix form; " +
-			"19 go-style for/if/assignment programs x 3 layouts against hand-written prefix programs; 6 statements at every offset 0..64 of the text; distinct_nontrivial = distinct expansions",
+			"22 go-style for/if/assignment programs (incl. a label as the first thing of a block after a comment) x 3 layouts against hand-written prefix programs; 6 statements at every offset 0..64 of the text; distinct_nontrivial = distinct expansions",
 		Assumptions: []string{"R3 encodes the binding powers and associativity stated in the property and the documented sign rule for -digit",
 			"texts R3 rejects (two operators in a row ...) are skipped; prefix spelling of selectors, nested blocks and comma is judged by the tree only"},
 		Run: func(c *engine.Ctx) {
